@@ -327,3 +327,112 @@ func reachMatrix() []*prog {
 	}
 	return out
 }
+
+// stopMatrix enumerates Stop and Fatal against the state of the panic machinery at the moment
+// they are called:
+//
+//	behaviour: Stop(err), Stop(nil), Fatal(v) called by the native function itself, or inside a
+//	  Scriggo function the native function calls back (h.Call), there also after a recover();
+//	caller: an interpreted deferred closure calling the native function (plain, after its own
+//	  recover(), followed by a print), the native function deferred directly — reached as a
+//	  function, a function value, a method value, a method expression, a method value of an
+//	  interface;
+//	state: no panic (called, deferred), a panic active in this frame, a panic active in an outer
+//	  frame (the deferred call runs at a normal return inside a deferred call of a panicking
+//	  function), a panic recovered earlier by another deferred call, two active panics;
+//	around: nothing, or an outer function whose deferred closure recovers and prints (it must
+//	  never run).
+func stopMatrix() []*prog {
+	type behaviour struct {
+		native []instr   // body of the native function N (function 1)
+		extra  [][]instr // the callback (function 2)
+	}
+	behaviours := []behaviour{
+		{native: []instr{{opStop, 1}}},
+		{native: []instr{{opStop, 0}}},
+		{native: []instr{{opFatal, 7}}},
+		{native: []instr{{opCall, 2}}, extra: [][]instr{{{opStop, 2}}}},
+		{native: []instr{{opCall, 2}}, extra: [][]instr{{{opFatal, 7}}}},
+		{native: []instr{{opCall, 2}}, extra: [][]instr{{{opRecover, 0}, {opStop, 1}}}},
+		{native: []instr{{opCall, 2}}, extra: [][]instr{{{opRecover, 0}, {opFatal, 7}}}},
+		{native: []instr{{opCall, 2}}, extra: [][]instr{{{opPrint, 5}, {opStop, 1}, {opPrint, 6}}}},
+	}
+	const N = 1
+	type caller struct {
+		closure []instr // nil: N itself is deferred / called
+		reach   int
+	}
+	callers := []caller{
+		{closure: []instr{{opCall, N}}},
+		{closure: []instr{{opRecover, 0}, {opCall, N}}},
+		{closure: []instr{{opCall, N}, {opPrint, 9}}},
+		{closure: []instr{{opDefer, N}, {opRecover, 0}}},
+		{reach: reachDirect},
+		{reach: reachVar},
+		{reach: reachMethodValue},
+		{reach: reachMethodExpr},
+		{reach: reachIfaceValue},
+		{reach: reachArg},
+	}
+	var out []*prog
+	for _, b := range behaviours {
+		for _, cl := range callers {
+			for state := 0; state < 7; state++ {
+				for around := 0; around < 2; around++ {
+					funcs := [][]instr{nil, b.native}
+					funcs = append(funcs, b.extra...)
+					x := N // the function that is deferred / called
+					if cl.closure != nil {
+						x = len(funcs)
+						funcs = append(funcs, cl.closure)
+					}
+					add := func(body ...instr) int {
+						funcs = append(funcs, body)
+						return len(funcs) - 1
+					}
+					var body []instr
+					switch state {
+					case 0: // no panic, called
+						body = []instr{{opPrint, 1}, {opCall, x}, {opPrint, 2}}
+					case 1: // no panic, deferred
+						body = []instr{{opDefer, x}, {opPrint, 1}}
+					case 2: // a panic active in this frame
+						body = []instr{{opDefer, x}, {opPanic, 2}}
+					case 3: // a panic active in an outer frame
+						w := add(instr{opDefer, x}, instr{opPrint, 1})
+						d := add(instr{opCall, w}, instr{opPrint, 2})
+						body = []instr{{opDefer, d}, {opPanic, 2}}
+					case 4: // a panic recovered earlier by another deferred call
+						r := add(instr{opRecover, 0})
+						body = []instr{{opDefer, x}, {opDefer, r}, {opPanic, 2}}
+					case 5: // two active panics
+						q := add(instr{opPanic, 3})
+						body = []instr{{opDefer, x}, {opDefer, q}, {opPanic, 2}}
+					case 6: // a panic raised by a callee, active while the caller's deferred call runs
+						q := add(instr{opPanic, 3})
+						body = []instr{{opDefer, x}, {opCall, q}}
+					}
+					if around == 0 {
+						funcs[0] = body
+					} else {
+						m := add(body...)
+						r := add(instr{opRecover, 0}, instr{opPrint, 8})
+						funcs[0] = []instr{{opDefer, r}, {opCall, m}, {opPrint, 4}}
+					}
+					p := &prog{Funcs: funcs, Style: make([]int, len(funcs))}
+					p.Style[N] = styleNative
+					for i := 2; i < len(funcs); i++ {
+						p.Style[i] = []int{styleTop, styleLit, styleVar}[(i+state+around)%3]
+					}
+					p.Reach = make([]int, len(funcs))
+					p.Reach[N] = cl.reach
+					if !p.nativeShape(N) {
+						panic("stop matrix: function 1 cannot be written as a native function")
+					}
+					out = append(out, p)
+				}
+			}
+		}
+	}
+	return out
+}
